@@ -282,73 +282,196 @@ def _dnf(e: ast.AST) -> list[list[ast.AST]]:
     return [[e]]
 
 
+class ListSrc:
+    """the list of alternatives offered to the chooser"""
+    def __init__(self, name: str):
+        self.name = name
+
+    def __repr__(self):
+        return f"<offered {self.name}>"
+
+
+class FiltV:
+    """a list obtained from the offered alternatives by comprehension filters (a conjunction of conditions, each with the
+    environment it was evaluated in); nonempty is what the path conditions say about it"""
+    def __init__(self, conds: list, nonempty: Optional[bool] = None, label: str = "", node: Any = None):
+        self.conds, self.nonempty, self.label, self.node = conds, nonempty, label, node
+
+    def with_truth(self, polarity: bool) -> "FiltV":
+        return FiltV(self.conds, polarity, self.label, self.node)
+
+    def __repr__(self):
+        return f"<filtered {' & '.join(norm(c[0])[:50] for c in self.conds)}>"
+
+
+class ChoiceOf:
+    def __init__(self, lst: Any, node: ast.AST):
+        self.lst, self.node = lst, node
+
+
+def _decider_paths(ctx: Ctx, f: FunctionInfo):
+    """abstractly interpret choose_production_alternatives: offered list -> filtered lists -> random.choice(<list>)"""
+    from ..absint import interp, SeqV
+    from ..inline import make_inline_hook
+    env = Env(Facts())
+    d, M, c = Lin.sym("d"), Lin.sym("M"), Lin.sym("c")
+    env.facts.ints |= {"d", "M", "c"}
+    alts_p, ctx_p = f.params[2], f.params[3]
+    env.vars["self.max_depth"] = M
+    env.vars[f"{ctx_p}.depth"] = c
+    env.vars[alts_p] = ListSrc(alts_p)
+
+    def call_hook(e_: Env, call: ast.Call):
+        nm = call_name(call)
+        if nm == "get_distance_to_terminal":
+            return d
+        if nm in ("choice", "choice_weighted") and call.args:
+            return ChoiceOf(evaluate(e_, call.args[0]), call)
+        if nm in ("list", "sorted", "tuple") and len(call.args) == 1:
+            v = evaluate(e_, call.args[0])
+            if isinstance(v, (ListSrc, FiltV)):
+                return v
+        return None
+
+    def comp_hook(e_: Env, comp: ast.AST):
+        if len(comp.generators) != 1:
+            return None
+        g = comp.generators[0]
+        src = evaluate(e_, g.iter)
+        if not isinstance(src, (ListSrc, FiltV)) or not isinstance(g.target, ast.Name):
+            return None
+        if not (isinstance(comp.elt, ast.Name) and comp.elt.id == g.target.id):
+            return Opaque("comprehension maps the alternatives to other values")
+        snap = e_.copy()
+        snap.vars.pop(g.target.id, None)
+        prev = list(src.conds) if isinstance(src, FiltV) else []
+        cond = g.ifs[0] if len(g.ifs) == 1 else ast.BoolOp(op=ast.And(), values=list(g.ifs)) if g.ifs else None
+        if cond is None:
+            return src
+        return FiltV(prev + [(cond, snap)], None, norm(cond)[:60], comp)
+
+    def sub_hook(e_: Env, sub: ast.Subscript):
+        if isinstance(sub.slice, ast.Slice):
+            return None
+        v = evaluate(e_, sub.value)
+        if isinstance(v, (ListSrc, FiltV)):
+            return ChoiceOf(v, sub)   # an element of that list
+        return None
+
+    env.hooks.append(call_hook)
+    env.sub_hooks.append(sub_hook)
+    env.comp_hooks.append(comp_hook)
+    env.hooks.append(make_inline_hook(ctx.prog, f.cls, f.module, skip=("get_distance_to_terminal",)))
+    outs = interp(f.node.body, env)
+    return outs, (d, M, c)
+
+
 def filter_rule(ctx: Ctx, rid: str, require_equivalence_everywhere: bool = False) -> None:
+    """Every depth-limited chooser is abstractly interpreted (helpers inlined): the list handed to random.choice on each path is
+    a chain of comprehension filters over the offered alternatives.  Soundness: every disjunct of the filters, under the path
+    facts, entails distance <= max_depth - ctx.depth.  Completeness (no valid limit fails, every valid program reachable):
+    unless the path conditions already say the list is non-empty, every alternative with distance <= max_depth - ctx.depth
+    passes the filters."""
+    from ..absint import truth, SeqV
     prog = ctx.prog
     n = 0
     for f in prog.implementations(DECIDER, "choose_production_alternatives"):
-        if not any(isinstance(x, ast.Attribute) and x.attr == "max_depth" for x in walk_local(f.node)):
+        cls = f.cls
+        reads_limit = any(isinstance(x, ast.Attribute) and x.attr == "max_depth" for x in walk_local(f.node))
+        if not reads_limit:
+            # through helpers?
+            for x in walk_local(f.node):
+                if isinstance(x, ast.Call) and isinstance(x.func, ast.Attribute) and isinstance(x.func.value, ast.Name) and x.func.value.id == "self":
+                    g = prog.lookup_method(cls, x.func.attr)
+                    if g is not None and any(isinstance(y, ast.Attribute) and y.attr == "max_depth" for y in walk_local(g.node)):
+                        reads_limit = True
+        if not reads_limit:
             continue
-        comps = [a for a in walk_local(f.node) if isinstance(a, ast.Assign) and isinstance(a.value, ast.ListComp)
-                 and any(isinstance(c, ast.Call) and call_name(c) == "get_distance_to_terminal" for c in ast.walk(a.value))]
-        # the list used by the final choice
-        rets = [r for r in walk_local(f.node) if isinstance(r, ast.Return) and r.value is not None]
-        final_names = set()
-        for r in rets:
-            for x in ast.walk(r.value):
-                if isinstance(x, ast.Name):
-                    final_names.add(x.id)
-        for a in comps:
-            nm = a.targets[0].id if isinstance(a.targets[0], ast.Name) else "?"
-            cond = a.value.generators[0].ifs[0] if a.value.generators[0].ifs else None
-            if cond is None:
+        outs, (d, M, c) = _decider_paths(ctx, f)
+        sound_bad = None
+        complete_bad = None
+        undecided = None
+        seen_lists: set[str] = set()
+        npaths = 0
+        for o in outs:
+            if o.kind == "raise":
                 continue
-            n += 1
-            # is this list the fallback (assigned under 'if not <list>' or the only one)?
-            is_fallback = any(isinstance(t, ast.UnaryOp) and isinstance(t.op, ast.Not) and pol for t, pol in guards(a, stop=f.node)) or len(comps) == 1 \
-                or nm == "baseline"
-            ok_impl, bad = True, None
-            for conj in _dnf(cond):
-                env, d, M, c = _cond_env()
-                for atom in conj:
-                    assume(env, atom, True)
-                if not entails_ge0(env.facts, M - c - d):
-                    ok_impl = False
-                    bad = " and ".join(norm(x) for x in conj)
-                    wit = find_model(env.facts, M - c - d)
-            ctx.ob(rid, f, a, f"{f.cls.name}: every alternative kept in '{nm}' fits the remaining depth", ok_impl,
-                   "" if ok_impl else f"the condition '{bad}' admits an alternative whose minimum depth exceeds max_depth - ctx.depth "
-                                      f"(e.g. {wit}): the depth limit can be exceeded / creation fails deeper down",
-                   witness=None if ok_impl else wit)
-            if (is_fallback or require_equivalence_everywhere) and ok_impl and (nm in final_names or is_fallback):
-                if is_fallback or f.cls.name == "MaxDepthDecider":
-                    # equivalence: bound => condition
-                    env, d, M, c = _cond_env()
-                    env.facts.add_ge(M - c, d)
-                    from ..absint import truth
-                    numeric_only = all(isinstance(x, ast.Compare) for conj in _dnf(cond) for x in conj)
-                    t = truth(env, cond)
-                    okeq = t.v is True
-                    wit = None
-                    if not okeq and numeric_only and len(_dnf(cond)) == 1 and len(_dnf(cond)[0]) == 1:
-                        at = _dnf(cond)[0][0]
-                        a_, b_ = evaluate(env, at.left), evaluate(env, at.comparators[0])
-                        vd = prove_cmp(env.facts, a_, at.ops[0], b_) if isinstance(a_, Lin) and isinstance(b_, Lin) else None
-                        wit = vd.witness if vd is not None else None
-                    n += 1
-                    ctx.ob(rid, f, a, f"{f.cls.name}: the last-resort list '{nm}' keeps every alternative that still fits", okeq,
-                           "" if okeq else f"'{norm(cond)}' is stricter than 'distance <= max_depth - ctx.depth' (e.g. {wit}): an alternative that "
-                                           f"exactly fits the remaining depth is pruned, so limits equal to the grammar minimum fail and valid "
-                                           f"programs become unreachable", witness=wit)
-    ctx.floor(rid, n, 6, "depth-filter lists")
+            if o.kind != "return" or not isinstance(o.value, ChoiceOf):
+                undecided = f"a path ends with {o.kind} / a value that is not random.choice(<list>) [{'; '.join(o.conds)[:80]}]"
+                continue
+            lst = o.value.lst
+            npaths += 1
+            if isinstance(lst, SeqV) and isinstance(lst.length, Lin) and lst.length.is_const() and lst.length.const == 0:
+                continue   # choice([]) is reached only when the (infeasible) 'non-empty' branch of an empty literal is taken
+            if isinstance(lst, ListSrc):
+                sound_bad = sound_bad or ("the offered alternatives are handed to random.choice unfiltered", None, o)
+                continue
+            if not isinstance(lst, FiltV):
+                undecided = f"the list handed to random.choice is not followed ({lst!r})"
+                continue
+            seen_lists.add(repr(lst))
+            # --- soundness: each combination of disjuncts entails d <= M - c
+            combos = [[]]
+            for cond, snap in lst.conds:
+                combos = [a + [(atom, snap) for atom in conj] for a in combos for conj in _dnf(cond)]
+            for combo in combos:
+                facts = o.env.facts.copy()
+                for atom, snap in combo:
+                    e2 = snap.copy()
+                    e2.facts = facts
+                    assume(e2, atom, True)
+                if not entails_ge0(facts, M - c - d):
+                    wit = find_model(facts, M - c - d)
+                    sound_bad = sound_bad or (f"the condition '{' and '.join(norm(a) for a, _ in combo)[:160]}' admits an alternative whose "
+                                              f"minimum depth exceeds max_depth - ctx.depth (e.g. {wit}): the depth limit can be exceeded / "
+                                              f"creation fails deeper down", wit, o)
+            # --- completeness unless known non-empty
+            if lst.nonempty is not True:
+                facts = o.env.facts.copy()
+                facts.add_ge(M - c, d)
+                ok_all = True
+                for cond, snap in lst.conds:
+                    e2 = snap.copy()
+                    e2.facts = facts
+                    if truth(e2, cond).v is not True:
+                        ok_all = False
+                        wit = None
+                        if isinstance(cond, ast.Compare) and len(cond.ops) == 1:
+                            a_, b_ = evaluate(e2, cond.left), evaluate(e2, cond.comparators[0])
+                            vd = prove_cmp(facts, a_, cond.ops[0], b_) if isinstance(a_, Lin) and isinstance(b_, Lin) else None
+                            wit = vd.witness if vd is not None else None
+                        complete_bad = complete_bad or (f"on the path [{'; '.join(o.conds)[:100]}] the last-resort list keeps only alternatives with "
+                                                        f"'{norm(cond)[:100]}', which is stricter than 'distance <= max_depth - ctx.depth' (e.g. {wit}): "
+                                                        f"an alternative that exactly fits the remaining depth is pruned, so limits equal to the "
+                                                        f"grammar minimum fail and valid programs become unreachable", wit, o)
+        n += npaths
+        if npaths == 0:
+            ctx.ob(rid, f, f.node, f"{cls.name}: every alternative that can be chosen fits the remaining depth", None,
+                   undecided or "no path reaches random.choice")
+            continue
+        ctx.ob(rid, f, f.node, f"{cls.name}: every alternative that can be chosen fits the remaining depth",
+               False if sound_bad else (None if undecided else True),
+               sound_bad[0] if sound_bad else (undecided or ""), witness=sound_bad[1] if sound_bad else {"paths": npaths, "lists": len(seen_lists)})
+        ctx.ob(rid, f, f.node, f"{cls.name}: when nothing else is left, every alternative that still fits can be chosen",
+               False if complete_bad else (None if undecided else True),
+               complete_bad[0] if complete_bad else (undecided or ""), witness=complete_bad[1] if complete_bad else {"paths": npaths})
+    ctx.floor(rid, n, 6, "interpreted chooser paths ending in random.choice")
 
 
 # ------------------------------------------------------------------------------------------- validate
 def validate_rule(ctx: Ctx, rid: str) -> None:
+    """Every decider class that takes a depth limit (validate found through the hierarchy, mixins included): __init__ calls
+    validate unconditionally; validate is abstractly interpreted (locals, helper calls): every raising path entails
+    max_depth < grammar minimum, every returning path entails max_depth >= grammar minimum, and what is raised is the library
+    error."""
+    from ..absint import interp
+    from ..inline import make_inline_hook
     prog = ctx.prog
     n = 0
+    done: set[str] = set()
     for c in prog.subclasses(DECIDER):
-        v = c.methods.get("validate")
-        if v is None:
+        v = prog.lookup_method(c, "validate")
+        if v is None or v.cls is None or v.cls.fullname == DECIDER:
             continue
         init = prog.lookup_method(c, "__init__")
         n += 1
@@ -356,45 +479,46 @@ def validate_rule(ctx: Ctx, rid: str) -> None:
         ok = bool(calls) and all(not guards(x, stop=init.node) for x in calls)
         ctx.ob(rid, init or v, calls[0] if calls else (init.node if init else v.node), f"{c.name}.__init__ validates the limit on every path", ok,
                "" if ok else "the depth limit is not validated at construction: an infeasible limit fails midway through creation instead")
-        # raise iff max_depth < min_tree_depth
-        raises = [r for r in walk_local(v.node) if isinstance(r, ast.Raise)]
-        outer = None
-        for r in raises:
-            gs = guards(r, stop=v.node)
-            if gs:
-                outer = gs[-1]
-        if outer is None:
-            ctx.ob(rid, v, v.node, f"{c.name}.validate rejects infeasible limits", False, "validate never raises")
+        if v.fullname in done:
             continue
-        test, pol = outer
+        done.add(v.fullname)
+        owner = v.cls.name
         env = Env(Facts())
         M, m = Lin.sym("M"), Lin.sym("m")
         env.facts.ints |= {"M", "m"}
         env.vars["self.max_depth"] = M
         env.hooks.append(lambda e_, cl: m if call_name(cl) == "get_min_tree_depth" else None)
-        # (a) condition => M <= m - 1
-        e1 = env.copy()
-        assume(e1, test, pol)
-        a_ok = entails_ge0(e1.facts, m - Lin.c(1) - M)
-        wit_a = None if a_ok else find_model(e1.facts, m - Lin.c(1) - M)
-        # (b) M <= m - 1 => condition
-        e2 = env.copy()
-        e2.facts.add_le(M, m - Lin.c(1))
-        from ..absint import truth
-        tv = truth(e2, test).v
-        b_ok = (tv is True) if pol else (tv is False)
+        env.hooks.append(make_inline_hook(prog, c, v.module, skip=("get_min_tree_depth",)))
+        outs = interp(v.node.body, env)
+        raising = [o for o in outs if o.kind == "raise"]
+        passing = [o for o in outs if o.kind in ("return", "fallthrough")]
+        other = [o for o in outs if o.kind == "unsupported"]
+        if other or not raising:
+            ctx.ob(rid, v, v.node, f"{owner}.validate rejects infeasible limits", None if other else False,
+                   "validate never raises" if not other else f"validate contains a construct the interpreter does not follow ({norm(other[0].node)[:50]})")
+            continue
+        a_bad = b_bad = None
+        for o in raising:
+            if not entails_ge0(o.env.facts, m - Lin.c(1) - M):
+                wit = find_model(o.env.facts, m - Lin.c(1) - M)
+                a_bad = a_bad or (f"the path [{'; '.join(o.conds)[:120]}] raises although the limit can be feasible (e.g. {wit}: max_depth equal "
+                                  f"to the grammar's minimum depth)", wit)
+        for o in passing:
+            if not entails_ge0(o.env.facts, M - m):
+                wit = find_model(o.env.facts, M - m)
+                b_bad = b_bad or (f"the path [{'; '.join(o.conds)[:120] or 'unconditional'}] accepts a limit below the grammar minimum "
+                                  f"(e.g. {wit}): creation then fails midway", wit)
         n += 1
-        ctx.ob(rid, v, test, f"{c.name}.validate raises only for infeasible limits (max_depth < grammar minimum)", a_ok,
-               "" if a_ok else f"'{norm(test)}' also rejects a feasible limit (e.g. {wit_a}: max_depth equal to the grammar's minimum depth)",
-               witness=wit_a)
+        ctx.ob(rid, v, v.node, f"{owner}.validate raises only for infeasible limits (max_depth < grammar minimum)", a_bad is None,
+               a_bad[0] if a_bad else "", witness=a_bad[1] if a_bad else None)
         n += 1
-        ctx.ob(rid, v, test, f"{c.name}.validate raises for every infeasible limit", b_ok,
-               "" if b_ok else f"'{norm(test)}' lets some limit below the grammar minimum through: creation then fails midway")
+        ctx.ob(rid, v, v.node, f"{owner}.validate raises for every infeasible limit", b_bad is None,
+               b_bad[0] if b_bad else "", witness=b_bad[1] if b_bad else None)
         # the raised error is the library's
-        for r in raises:
+        for r in [x for x in walk_local(v.node) if isinstance(x, ast.Raise)]:
             d = dotted(r.exc.func if isinstance(r.exc, ast.Call) else r.exc) if r.exc is not None else None
             okk = d is not None and d.split(".")[-1] == "GeneticEngineError"
-            ctx.ob(rid, v, r, f"{c.name}.validate raises the library error", okk, "" if okk else f"raises {d}")
+            ctx.ob(rid, v, r, f"{owner}.validate raises the library error", okk, "" if okk else f"raises {d}")
     ctx.floor(rid, n, 4, "validate obligations")
 
 
